@@ -1243,14 +1243,17 @@ func (w *_listpairsFieldListAssemblerRepr) AssembleValue() datamodel.NodeAssembl
 	case 1:
 		return w.parent.AssembleKey()
 	case 2:
-		asm := w.parent.AssembleValue()
-		return assemblerRepr(asm.(*_assembler))
+		// (an unknown key yields an error assembler here, which assemblerRepr passes through)
+		return assemblerRepr(w.parent.AssembleValue())
 	default:
 		return _errorAssembler{fmt.Errorf("bindnode: too many values in listpairs field")}
 	}
 }
 
 func (w *_listpairsFieldListAssemblerRepr) Finish() error {
+	if w.idx < 2 {
+		return fmt.Errorf("bindnode: a listpairs field must be a list of a key and a value, got %d element(s)", w.idx)
+	}
 	return nil
 }
 
